@@ -144,6 +144,7 @@ pub open spec fn blocks_of(r: Result<Vec<Block>, IoError>) -> Option<Seq<Block>>
 // the index search itself (units rt_search / rt_nodes / cache): signature cut from /repo, body skipped.
 // ASSUMED: it may fail or return any blocks; it is one logged access with exactly its arguments and result.
 //@extract fn bigtools/src/bbi/bbiread.rs search_cir_tree_inner
+//@rule R16
 //@skipbody
 //@sub /pub\(crate\) fn/ => pub fn
 //@sub /search_cir_tree_inner<R: BBIFileRead>/ => search_cir_tree_inner
@@ -226,26 +227,32 @@ pub fn position_chrom(v: &Vec<ChromInfo>, chrom_name: &Name) -> (r: Option<usize
 
 // ---------------- the conversions behind `?` (From impls of the repository, extracted) ----------------
 //@extract method bigtools/src/bbi/bbiread.rs from "From<ChromIdNotFound> for BBIReadError"
+//@rule R16
 //@sub /fn from\(e: ChromIdNotFound\) -> Self/ => pub fn cinf_to_read(e: ChromIdNotFound) -> BBIReadError min=1
 //@ret r
 //@sig
     ensures r is InvalidChromosome,
 //@end
 //@extract method bigtools/src/bbi/bbiread.rs from "From<CirTreeSearchError> for BBIReadError"
+//@rule R16
 //@sub /fn from\(value: CirTreeSearchError\) -> Self/ => pub fn cts_to_read(value: CirTreeSearchError) -> BBIReadError min=1
 //@end
 //@extract method bigtools/src/bbi/bbiread.rs from "From<internal::FullDataCirTreeError> for BBIReadError"
+//@rule R16
 //@sub /fn from\(value: internal::FullDataCirTreeError\) -> Self/ => pub fn fdct_to_read(value: FullDataCirTreeError) -> BBIReadError min=1
 //@sub /internal::/ => "" min=0
 //@end
 //@extract method bigtools/src/bbi/bbiread.rs from "From<ChromIdNotFound> for ZoomIntervalError"
+//@rule R16
 //@sub /fn from\(e: ChromIdNotFound\) -> Self/ => pub fn cinf_to_zoom(e: ChromIdNotFound) -> ZoomIntervalError min=1
 //@end
 //@extract method bigtools/src/bbi/bbiread.rs from "From<CirTreeSearchError> for ZoomIntervalError"
+//@rule R16
 //@sub /fn from\(e: CirTreeSearchError\) -> Self/ => pub fn cts_to_zoom(e: CirTreeSearchError) -> ZoomIntervalError min=1
 //@sub /e\.into\(\)/ => cts_to_read(e) min=0
 //@end
 //@extract method bigtools/src/bbi/bbiread.rs from "From<internal::ZoomDataCirTreeError> for ZoomIntervalError"
+//@rule R16
 //@sub /fn from\(value: internal::ZoomDataCirTreeError\) -> Self/ => pub fn zdct_to_zoom(value: ZoomDataCirTreeError) -> ZoomIntervalError min=1
 //@sub /internal::/ => "" min=0
 //@end
@@ -257,6 +264,7 @@ pub fn io_to_cts(e: IoError) -> (r: CirTreeSearchError)
 // ---------------- name -> id ----------------
 impl BBIFileInfo {
 //@extract method bigtools/src/bbi/bbiread.rs chrom_id "^impl BBIFileInfo"
+//@rule R16
 //@rule R8
 //@sub /chrom_name: &str/ => chrom_name: &Name min=1
 //@sub /((?:\w+(?:\(\))?\s*\.\s*)*\w+(?:\(\))?)\s*\.iter\(\)\s*\.find\(\|&?\w+\| \w+\.name == chrom_name\)/ => find_chrom(&\1, chrom_name) min=0
@@ -272,6 +280,7 @@ impl BBIFileInfo {
 }
 
 //@extract fn bigtools/src/bbi/bbiread.rs search_cir_tree
+//@rule R16
 //@rule R8
 //@sub /search_cir_tree<R: BBIFileRead>/ => search_cir_tree min=1
 //@sub /file: &mut R/ => file: &mut VRead min=1
@@ -319,6 +328,7 @@ impl BBIFileInfo {
 
 impl<B> ZoomIntervalIter<B> {
 //@extract method bigtools/src/bbi/bbiread.rs new "^impl<R, B> ZoomIntervalIter<R, B>"
+//@rule R16
 //@sub /std::vec::IntoIter<(\w+)>/ => Vec<\1> min=1
 //@sub /[ \t]*_r: std::marker::PhantomData,\n/ => "" min=1
 //@ret r
@@ -360,6 +370,7 @@ impl BigWigRead {
     { unimplemented!() }
 
 //@extract method bigtools/src/bbi/bigwigread.rs get_interval "^impl<R> BigWigRead<R> where R: BBIFileRead"
+//@rule R16
 //@sub /BigWigRead<R>/ => BigWigRead min=1
 //@sub /BigWigIntervalIter<R, / => BigWigIntervalIter< min=1
 //@sub /chrom_name: &str/ => chrom_name: &Name min=1
@@ -388,6 +399,7 @@ impl BigWigRead {
 //@end
 
 //@extract method bigtools/src/bbi/bigwigread.rs get_interval_move "^impl<R> BigWigRead<R> where R: BBIFileRead"
+//@rule R16
 //@sub /BigWigRead<R>/ => BigWigRead min=1
 //@sub /BigWigIntervalIter<R, / => BigWigIntervalIter< min=1
 //@sub /chrom_name: &str/ => chrom_name: &Name min=1
@@ -418,6 +430,7 @@ impl BigWigRead {
 //@end
 
 //@extract method bigtools/src/bbi/bigwigread.rs get_zoom_interval "^impl<R> BigWigRead<R> where R: BBIFileRead"
+//@rule R16
 //@sub /BigWigRead<R>/ => BigWigRead min=1
 //@sub /ZoomIntervalIter<BigWigRead, / => ZoomIntervalIter< min=1
 //@sub /chrom_name: &str/ => chrom_name: &Name min=1
@@ -446,6 +459,7 @@ impl BigWigRead {
 //@end
 
 //@extract method bigtools/src/bbi/bigwigread.rs get_zoom_interval_move "^impl<R> BigWigRead<R> where R: BBIFileRead"
+//@rule R16
 //@sub /BigWigRead<R>/ => BigWigRead min=1
 //@sub /ZoomIntervalIter<BigWigRead, / => ZoomIntervalIter< min=1
 //@sub /chrom_name: &str/ => chrom_name: &Name min=1
@@ -503,6 +517,7 @@ impl BigBedRead {
 
 // the inherent `info()` accessor used by get_interval / get_interval_move
 //@extract method bigtools/src/bbi/bigbedread.rs info "^impl<R> BigBedRead<R>"
+//@rule R16
 //@ret r
 //@sig
     ensures
@@ -511,6 +526,7 @@ impl BigBedRead {
 //@end
 
 //@extract method bigtools/src/bbi/bigbedread.rs get_interval "^impl<R: BBIFileRead> BigBedRead<R>"
+//@rule R16
 //@sub /BigBedRead<R>/ => BigBedRead min=1
 //@sub /BigBedIntervalIter<R, / => BigBedIntervalIter< min=1
 //@sub /chrom_name: &str/ => chrom_name: &Name min=1
@@ -543,6 +559,7 @@ impl BigBedRead {
 //@end
 
 //@extract method bigtools/src/bbi/bigbedread.rs get_interval_move "^impl<R: BBIFileRead> BigBedRead<R>"
+//@rule R16
 //@sub /BigBedRead<R>/ => BigBedRead min=1
 //@sub /BigBedIntervalIter<R, / => BigBedIntervalIter< min=1
 //@sub /chrom_name: &str/ => chrom_name: &Name min=1
@@ -577,6 +594,7 @@ impl BigBedRead {
 //@end
 
 //@extract method bigtools/src/bbi/bigbedread.rs get_zoom_interval "^impl<R: BBIFileRead> BigBedRead<R>"
+//@rule R16
 //@sub /BigBedRead<R>/ => BigBedRead min=1
 //@sub /ZoomIntervalIter<BigBedRead, / => ZoomIntervalIter< min=1
 //@sub /chrom_name: &str/ => chrom_name: &Name min=1
@@ -605,6 +623,7 @@ impl BigBedRead {
 //@end
 
 //@extract method bigtools/src/bbi/bigbedread.rs get_zoom_interval_move "^impl<R: BBIFileRead> BigBedRead<R>"
+//@rule R16
 //@sub /BigBedRead<R>/ => BigBedRead min=1
 //@sub /ZoomIntervalIter<BigBedRead, / => ZoomIntervalIter< min=1
 //@sub /chrom_name: &str/ => chrom_name: &Name min=1
